@@ -100,14 +100,13 @@ Definition next_velocity (h : S) (qvel qacc : list S) (scale : S) : list S :=
 Definition MJ_MINVAL : S := slit 1 1000000000000000.
 
 Definition next_act (h : S) (dyn : Z) (prm0 lo hi act_in act_dot scale : S) (clamp : bool) : S :=
-  if (dyn =? 7)%Z then act_in                                   (* USER: early return *)
-  else
-    let act :=
-      if (dyn =? 3)%Z then                                      (* FILTEREXACT *)
-        let tau := smax MJ_MINVAL prm0 in
-        act_in + scale * act_dot * tau * (s1 - sexp (sneg h / tau))
-      else act_in + scale * act_dot * h in
-    if clamp then sclamp act lo hi else act.
+  let act :=
+    if (dyn =? 3)%Z then                                        (* FILTEREXACT *)
+      let tau := smax MJ_MINVAL prm0 in
+      act_in + scale * act_dot * tau * (s1 - sexp (sneg h / tau))
+    else if (dyn =? 7)%Z then act_in                            (* USER: unchanged, but clamped below *)
+    else act_in + scale * act_dot * h in
+  if clamp then sclamp act lo hi else act.
 
 Definition nact_writes (h : S) (act_dot : list S) (scale : S) (limit : bool)
     (act_in : list S) (u : actuator S) : list (Z * S) :=
